@@ -155,7 +155,7 @@ func runC01(r *mon.Run) {
 	var jobs []job
 	rng := r.Rand("jobs")
 	for _, kn := range keys {
-		reps := r.Pick(1, 3)
+		reps := r.Pick(1, 8)
 		maxAttr := 4
 		if r.Thorough() {
 			maxAttr = 6
